@@ -223,7 +223,6 @@ func c10ServerNegotiate(r *Run, sn *ssa.Function) {
 	sets := findCalls(sn, "invoke p9p.Channel.SetMSize")
 	via := map[*ssa.BasicBlock]bool{}
 	n := 0
-	var mv *Sym
 	eachInstr(sn, func(in ssa.Instruction) {
 		st, ok := in.(*ssa.Store)
 		if !ok {
@@ -233,63 +232,97 @@ func c10ServerNegotiate(r *Run, sn *ssa.Function) {
 		if !ok || f.X != resp || fieldName(f.X.Type(), f.Field) != "MSize" {
 			return
 		}
-		n++
 		via[st.Block()] = true
-		lv := fa.Lin(st.Val)
-		lm := fa.LinMod(st.Val, 32)
-		// (a) equals the argument of a SetMSize call in the same straight-line region
-		for _, sc := range sets {
-			if (sc.Block() == st.Block() || sc.Block().Dominates(st.Block())) && sameConds(sc, st) {
-				if fa.Lin(sc.Call.Args[0]).Equal(lv) {
+		// the value stored, per way of reaching the store: a temporary assigned on both branches of the comparison
+		// and stored once (`MSize: respMSize`) is a phi — each incoming edge is one assignment
+		type assign struct {
+			val        ssa.Value
+			pred, succ *ssa.BasicBlock // nil: the store itself
+		}
+		var as []assign
+		var expand func(v ssa.Value, pred, succ *ssa.BasicBlock, d int)
+		expand = func(v ssa.Value, pred, succ *ssa.BasicBlock, d int) {
+			if ph, ok := v.(*ssa.Phi); ok && d < 3 {
+				for i, e := range ph.Edges {
+					expand(e, ph.Block().Preds[i], ph.Block(), d+1)
+				}
+				return
+			}
+			as = append(as, assign{v, pred, succ})
+		}
+		expand(st.Val, nil, nil, 0)
+		for _, a := range as {
+			n++
+			blk := st.Block()
+			conds := condsAtInstr(st)
+			if a.pred != nil {
+				blk = a.pred
+				conds = append(append([]Cond{}, condsAt(a.pred)...), edgeCond(a.pred, a.succ)...)
+			}
+			reaches := func(sc *ssa.Call) bool { return sc.Block() == blk || sc.Block().Dominates(blk) }
+			lv := fa.Lin(a.val)
+			lm := fa.LinMod(a.val, 32)
+			done := false
+			// (a) equals the argument of a SetMSize call in the same straight-line region
+			for _, sc := range sets {
+				if reaches(sc) && sameCondSets(condsAtInstr(sc), conds) && fa.Lin(sc.Call.Args[0]).Equal(lv) {
 					r.Ok("rversion-msize", "servernegotiate: Rversion.MSize == value given to SetMSize (lowered branch)", st.Pos(), "MSize = "+lv.String())
-					for k := range lv.Atoms {
-						mv = lv.Atoms[k]
-					}
-					return
+					done = true
+					break
 				}
 			}
-		}
-		// (b) equals ch.MSize() with no SetMSize on this path
-		if len(lm.T) == 1 && lm.C == 0 {
-			for k, c := range lm.T {
-				if c == 1 && isMSizeGetter(lm.Atoms[k]) {
-					noSet := true
-					for _, sc := range sets {
-						if sc.Block() == st.Block() || sc.Block().Dominates(st.Block()) {
-							noSet = false
+			if done {
+				continue
+			}
+			// (b) equals ch.MSize() with no SetMSize on this path
+			if len(lm.T) == 1 && lm.C == 0 {
+				for k, c := range lm.T {
+					if c == 1 && isMSizeGetter(lm.Atoms[k]) {
+						noSet := true
+						for _, sc := range sets {
+							if reaches(sc) {
+								noSet = false
+							}
 						}
-					}
-					if noSet {
-						// … and answering with its own msize is only right when that does not exceed the client's
-						// proposal: the store sits on an edge implying ch.MSize() <= Tversion.MSize
-						facts := fa.FactsAt(st, lv)
-						okLe := false
-						for _, f := range facts {
-							for _, a := range f.L.Atoms {
-								if !(strings.Contains(a.K, "MessageTversion") && strings.HasSuffix(a.K, ".MSize")) {
-									continue
-								}
-								for _, f2 := range facts {
-									for _, g := range f2.L.Atoms {
-										if isMSizeGetter(g) && EntailsLE(facts, linAtom(g), linAtom(a)) {
-											okLe = true
+						if noSet {
+							// … and answering with its own msize is only right when that does not exceed the client's
+							// proposal: the assignment sits on an edge implying ch.MSize() <= Tversion.MSize
+							var facts []Fact
+							if a.pred == nil {
+								facts = fa.FactsAt(st, lv)
+							} else {
+								facts = fa.FactsOnEdge(a.pred, a.succ, lv)
+							}
+							okLe := false
+							for _, f := range facts {
+								for _, at := range f.L.Atoms {
+									if !(strings.Contains(at.K, "MessageTversion") && strings.HasSuffix(at.K, ".MSize")) {
+										continue
+									}
+									for _, f2 := range facts {
+										for _, g := range f2.L.Atoms {
+											if isMSizeGetter(g) && EntailsLE(facts, linAtom(g), linAtom(at)) {
+												okLe = true
+											}
 										}
 									}
 								}
 							}
+							r.Check(okLe, "rversion-msize", "servernegotiate: the server answers its own msize only when the client proposed at least that much", st.Pos(),
+								"on some path the reply carries the server's own msize although the client proposed less: the server answers (and keeps using) more than the client proposed", factStrings(facts)...)
+							r.Ok("rversion-msize", "servernegotiate: Rversion.MSize == uint32(ch.MSize()) (unchanged branch)", st.Pos(), "MSize = "+lm.String())
+							done = true
 						}
-						r.Check(okLe, "rversion-msize", "servernegotiate: the server answers its own msize only when the client proposed at least that much", st.Pos(),
-							"on some path the reply carries the server's own msize although the client proposed less: the server answers (and keeps using) more than the client proposed", factStrings(facts)...)
-						r.Ok("rversion-msize", "servernegotiate: Rversion.MSize == uint32(ch.MSize()) (unchanged branch)", st.Pos(), "MSize = "+lm.String())
-						return
 					}
 				}
 			}
+			if done {
+				continue
+			}
+			r.Bad("rversion-msize", "servernegotiate: Rversion.MSize is the channel's msize on this path", st.Pos(),
+				"the msize answered ("+lm.String()+") is neither the value just installed with SetMSize nor the channel's current msize: the two ends would disagree")
 		}
-		r.Bad("rversion-msize", "servernegotiate: Rversion.MSize is the channel's msize on this path", st.Pos(),
-			"the msize answered ("+lm.String()+") is neither the value just installed with SetMSize nor the channel's current msize: the two ends would disagree")
 	})
-	_ = mv
 	r.Floor("rversion-msize", n, 2, "stores to Rversion.MSize")
 	// every path to the reply passes one of those stores
 	for _, w := range writes {
@@ -320,7 +353,10 @@ func c10ServerNegotiate(r *Run, sn *ssa.Function) {
 
 // sameConds: two instructions execute under the same set of dominating branch conditions.
 func sameConds(a, b ssa.Instruction) bool {
-	ca, cb := condsAtInstr(a), condsAtInstr(b)
+	return sameCondSets(condsAtInstr(a), condsAtInstr(b))
+}
+
+func sameCondSets(ca, cb []Cond) bool {
 	if len(ca) != len(cb) {
 		return false
 	}
